@@ -101,11 +101,12 @@ def fail(prop, sig, **args):
     """Verdict for a failing path: 'known:<id>' if a listed, still-active finding
     explains it (same outcome signature and its input predicate holds), else `sig`."""
     for f in active_known(prop):
-        if f['signature'] != sig:
+        if sig not in f['signature']:
             continue
         pred = _PRED_CACHE.get(f['id'])
         if pred is None:
-            pred = _PRED_CACHE[f['id']] = eval('lambda a: ' + f['predicate'], {'__builtins__': __builtins__})
+            from spec import yaml11_types as spec
+            pred = _PRED_CACHE[f['id']] = eval('lambda a: ' + f['predicate'], {'__builtins__': __builtins__, 'spec': spec})
         try:
             if pred(args):
                 return 'known:' + f['id']
